@@ -47,6 +47,13 @@ EXTRA = {
     "swap-vectors": [A("a1", "<state>y * 2"), A("a2", "<p>w + a1"), A("<p>w", "a1"), A("<state>y", "a2 + <p>w")],
 }
 
+# programs for a second registry / user_type_map: a function with three user-type results and three yielded components
+EXTRA2 = {
+    "three-results": [A(["a1", "a2", "a3"], "<func>g3(<state>y, <p>s)"), A("<state>y", "a1 + a2 + a3")],
+    "three-components": [["Y", "<state>y", "y", "<t>", "final"], ["Y", "<p>w", "y2", "<t>", "final"],
+                         ["Y", "<state>y * 2", "y3", "<t> + <dt>", "mid"]],
+}
+
 PAIRS = [("euler", "yield y"), ("s=ifexp", "if-nested"), ("tmp-array", "r[i]+=j"), ("w,s=g2", "yield w"),
          ("pw=y", "y=pw/2+y"), ("fail-if", "euler"), ("switch aux", "s+=dt"), ("q=s;s=q*q", "if-or-and")]
 
@@ -54,6 +61,7 @@ PAIRS = [("euler", "yield y"), ("s=ifexp", "if-nested"), ("tmp-array", "r[i]+=j"
 def atoms():
     d = dict(c03.ATOMS)
     d.update(EXTRA)
+    d.update(EXTRA2)
     return d
 
 
@@ -77,7 +85,27 @@ def phases_of(names):
 
 def utm():
     import dagrt.codegen.fortran as f
-    return {"y": f.ArrayType((3,), f.BuiltinType("real*8"))}
+    return {"y": f.ArrayType((3,), f.BuiltinType("real*8")), "y2": f.ArrayType((3,), f.BuiltinType("real*8")),
+            "y3": f.ArrayType((3,), f.BuiltinType("real*8"))}
+
+
+_REG = []
+
+
+def registry():
+    if not _REG:
+        import dagrt.codegen.fortran as f
+        from dagrt.data import UserType
+        from dagrt.function_registry import register_function
+        freg = register_function(c03.registry(), "<func>g3", ("y", "s"), result_names=("a", "b", "c"),
+                                 result_kinds=(UserType("y"), UserType("y"), UserType("y")))
+        freg = freg.register_codegen("<func>g3", "fortran", f.CallCode("""
+                ${a} = ${y} + ${s}
+                ${b} = ${y} * 2
+                ${c} = ${y} - ${s}
+                """))
+        _REG.append(freg)
+    return _REG[0]
 
 
 _UTM = []
@@ -114,7 +142,7 @@ def gen_texts(dag, user_type_map=None):
     import dagrt.codegen.fortran as f
     from dagrt.codegen.python import CodeGenerator as PyGen
     py = PyGen("Stepper")(dag)
-    ft = f.CodeGenerator("m", function_registry=c03.registry(),
+    ft = f.CodeGenerator("m", function_registry=registry(),
                          user_type_map=user_type_map if user_type_map is not None else shared_utm())(dag)
     return py, ft
 
@@ -191,7 +219,9 @@ def perms_for(n, tier):
 
 def interp_obs(dag):
     import numpy as np
-    it = prog.make_interp(dag, c03.FUNCS)
+    funcs = dict(c03.FUNCS)
+    funcs["<func>g3"] = lambda y, s: (np.asarray(y) + s, np.asarray(y) * 2, np.asarray(y) - s)
+    it = prog.make_interp(dag, funcs)
     return json.dumps(prog.observe_stepper(it, prog.interp_store,
                                            {"t": 0.0, "dt": 1.0, "state": {"y": np.array(c03.Y0)}},
                                            ("run", {"max_steps": 4})), default=repr)
